@@ -59,9 +59,13 @@ class Wire:
         if self.is_coincident(wire) and wire not in self.coincidents:
             # the same edge of the mesh: both wires must measure the same curve,
             # whichever of the two operations defined it
-            if self.edge.kind == "line" and wire.edge.kind != "line":
+            # (an edge that is not written - a collinear arc, for instance - counts as a line)
+            self_plain = self.edge.kind == "line" or not self.edge.is_valid
+            wire_plain = wire.edge.kind == "line" or not wire.edge.is_valid
+
+            if self_plain and not wire_plain:
                 self.edge = wire.edge
-            elif wire.edge.kind == "line" and self.edge.kind != "line":
+            elif wire_plain and not self_plain:
                 wire.edge = self.edge
 
             self.coincidents.add(wire)
